@@ -128,6 +128,8 @@ def render_sdl(sch, order=None, ptr_order=None):
     SDL document (schema_features.py) and is returned as it is."""
     if isinstance(sch, str):
         return sch
+    if isinstance(sch, tuple) and sch and sch[0] == 'DDL':
+        return 'DDL: ' + sch[1]
     names = [t for t in sorted(sch) if sch[t]['ex']]
     if order is not None:
         names = [names[i] for i in order]
